@@ -795,7 +795,7 @@ func (r *reader) read(src []byte) {
 			}
 		}
 		if r.one && 0 < len(r.code) {
-			if b == ')' {
+			if b == ')' || b == '"' || b == '|' {
 				r.pos++
 			}
 			return
